@@ -39,6 +39,11 @@ VerdictC06(c) ==
   ELSE UNION {C06Step(c, k) : k \in 1..Len(c.steps)}
        \cup (IF \E k \in 1..Len(c.hidx) : c.hidx[k] < 0 \/ c.hidx[k] > FarSum(c.M)
              THEN {"frequency-index-outside-0..upper-bound"} ELSE {})
+       \* a run that logs its frequency table (hidx = the lengths the logged table names): every length the run
+       \* was at has been counted
+       \cup (IF "log_h" \in DOMAIN c /\ c.log_h = 1 /\ Len(c.hidx) > 0
+                /\ \E k \in 1..Len(c.steps) : \A q \in 1..Len(c.hidx) : c.hidx[q] # c.steps[k].y
+             THEN {"logged-frequency-table-misses-a-visited-length"} ELSE {})
        \cup (IF c.ub # FarSum(c.M) /\ c.ub < SetMax({TourLen(c.M, c.steps[k].x) : k \in
                         {q \in 1..Len(c.steps) : IsPerm(c.steps[q].x, c.n)}} \cup {0})
              THEN {"tour-longer-than-instance-upper-bound"} ELSE {})
